@@ -386,7 +386,7 @@ def refusal(viol):
     from quansino.mc.core import MonteCarlo
 
     n = 0
-    for cycles, ivs, same in itertools.product((1, 2, 3, 4), itertools.product((1, 2, 3), repeat=3), (False, True)):
+    for cycles, ivs, (same, advance) in itertools.product((1, 2, 3, 4), itertools.product((1, 2, 3), repeat=3), ((False, 0), (True, 0), (False, 1), (False, 3))):
         for mins in itertools.product((0, 1, 2, 3), repeat=3):
             with warnings.catch_warnings():
                 warnings.simplefilter("ignore")
@@ -395,6 +395,8 @@ def refusal(viol):
             shared = PMove()  # the same move object may be registered under several names
             for i, m in enumerate(mins):
                 n += 1
+                if i == 2 and advance and mc.moves:
+                    mc.run(advance)  # the table is extended while the simulation is under way (some moves not due at this step)
                 before = list(mc.moves)
                 should_refuse = total + m > cycles
                 try:
@@ -403,7 +405,7 @@ def refusal(viol):
                 except ValueError:
                     refused = True
                 if refused != should_refuse:
-                    viol.append({"signature": f"C09/add_move/{'over-commit-accepted' if should_refuse else 'valid-move-refused'}", "what": f"cycles={cycles}, minimum counts so far {mins[:i]} (intervals {ivs[:i]}, same move object: {same}), adding {m} with interval {ivs[i]}: refused={refused}", "replay": {"cycles": cycles, "mins": mins[: i + 1], "intervals": ivs[: i + 1]}})
+                    viol.append({"signature": f"C09/add_move/{'over-commit-accepted' if should_refuse else 'valid-move-refused'}", "what": f"cycles={cycles}, minimum counts so far {mins[:i]} (intervals {ivs[:i]}, same move object: {same}, steps run before the last addition: {advance}), adding {m} with interval {ivs[i]}: refused={refused}", "replay": {"cycles": cycles, "mins": mins[: i + 1], "intervals": ivs[: i + 1]}})
                 if refused and list(mc.moves) != before:
                     viol.append({"signature": "C09/add_move/table-changed-by-refused-addition", "what": "a refused add_move modified the table", "replay": {}})
                 if not refused:
